@@ -147,6 +147,9 @@ func (i *NetflowV5) run() {
 		netflowV5UDPCh <- NetflowV5UDPMsg{raddr, b[:n]}
 	}
 
+	// the read loop is the only sender on the UDP channel: it closes the channel
+	// itself once it has left the loop (a close from shutdown could hit a send in flight)
+	close(netflowV5UDPCh)
 }
 
 func (i *NetflowV5) shutdown() {
@@ -160,9 +163,8 @@ func (i *NetflowV5) shutdown() {
 	logger.Println("stopping netflow v5 service gracefully ...")
 	time.Sleep(1 * time.Second)
 
-	// logging and close UDP channel
+	// logging (the UDP channel is closed by the read loop)
 	logger.Println("netflow v5 has been shutdown")
-	close(netflowV5UDPCh)
 }
 
 func (i *NetflowV5) netflowV5Worker(wQuit chan struct{}) {
